@@ -136,3 +136,61 @@ def digest(x) -> str:
     import hashlib
 
     return hashlib.sha1(repr(x).encode("utf-8", "backslashreplace")).hexdigest()[:16]
+
+
+# ---------------------------------------------------------------------------
+# instance alphabet: classes the instances under test can be made of
+# ---------------------------------------------------------------------------
+_CLASSES = {}
+
+
+def generator_class(which):
+    """Generator classes of the instance alphabet (made once per process, so
+    that all instances of one kind really share a class)."""
+    from pycparser import c_ast
+    from pycparser.c_generator import CGenerator
+
+    if not _CLASSES.get("gen"):
+        class Deco(CGenerator):
+            """overrides three visit_X methods with a recognisable decoration"""
+
+            def visit_ID(self, n):
+                return "<" + n.name + ">"
+
+            def visit_Constant(self, n):
+                return "#" + n.value
+
+            def visit_BinaryOp(self, n):
+                return "[" + super().visit_BinaryOp(n) + "]"
+
+        class OwnVisit(CGenerator):
+            """overrides visit() itself (and one visit_X)"""
+
+            def visit(self, node):
+                if isinstance(node, c_ast.Constant):
+                    return "K" + node.value
+                return super().visit(node)
+
+            def visit_ID(self, n):
+                return n.name.upper()
+
+        class RPSub(CGenerator):
+            def __init__(self):
+                super().__init__(reduce_parentheses=True)
+
+        _CLASSES["gen"] = {"": CGenerator, "deco": Deco, "ownvisit": OwnVisit, "rpsub": RPSub}
+    return _CLASSES["gen"][which]
+
+
+def parser_class(which):
+    from pycparser.c_parser import CParser
+
+    if not _CLASSES.get("parse"):
+        class Loud(CParser):
+            """a user subclass overriding the error hook"""
+
+            def _parse_error(self, msg, coord):
+                super()._parse_error("LOUD " + msg, coord)
+
+        _CLASSES["parse"] = {"": CParser, "loud": Loud}
+    return _CLASSES["parse"][which]
